@@ -527,13 +527,13 @@ def r19_4(ctx):
         link_var = norm(n.targets[0].elts[2]) if ok else None
         ctx.check(ok, f.fq, short(n), where, "URL = everything after the first ';' following '8;' (partition keeps later semicolons)", "the OSC-8 payload is not split as `8;` + params + ';' + rest: the URL is cut or shifted")
         if link_var:
-            ctx.check(f"self.style.update_link({link_var} or None)" in src or f"self.style.update_link({link_var})" in src, f.fq, "update_link(link or None)", where, "decoded URL replaces the running link (empty URL clears it)", "the decoded URL is not applied with update_link(link or None)")
+            ctx.shape(f"self.style.update_link({link_var} or None)" in src or f"self.style.update_link({link_var})" in src, f.fq, "update_link(link or None)", where, "decoded URL replaces the running link (empty URL clears it)", "the decoded URL is not applied with update_link(link or None)")
     else:
         call = n.value.value if isinstance(n.value, ast.Subscript) else n.value
         maxsplit = call.args[1] if len(call.args) > 1 else kwarg(call, "maxsplit")
         ok = maxsplit is not None
         ctx.check(ok, f.fq, short(n), where, "split with maxsplit keeps the rest of the URL", "the OSC-8 payload is split on every ';' and one piece is taken as the URL: a link URL that itself contains ';' is truncated by the decoder although the encoder wrote it in full")
-    ctx.check("osc.startswith('8;')" in src, f.fq, "osc.startswith('8;')", f.where, "only OSC 8 is interpreted as a link", "the decoder no longer checks for the OSC 8 prefix")
+    ctx.shape("osc.startswith('8;')" in src, f.fq, "osc.startswith('8;')", f.where, "only OSC 8 is interpreted as a link", "the decoder no longer checks for the OSC 8 prefix")
 
 
 def r19_5(ctx):
